@@ -740,7 +740,9 @@ def _expand(helper, call, caller, cls, target_names: set, mode: str, tuple_targe
             def order_safe(x):
                 # t1 = v1; t2 = v2; ...: no later value may read an earlier target (all values are evaluated first in `t1, t2 = v1, v2`)
                 for j, v in enumerate(x.value.elts):
-                    if any(isinstance(n, ast.Name) and n.id in tuple_targets[:j] for n in ast.walk(v)):
+                    # (an earlier target that is assigned its own name keeps its value: reading it later is harmless)
+                    changed_before = [t for t, v0 in zip(tuple_targets[:j], x.value.elts[:j]) if not (isinstance(v0, ast.Name) and v0.id == t)]
+                    if any(isinstance(n, ast.Name) and n.id in changed_before for n in ast.walk(v)):
                         return False
                 return True
             if assigns and all(isinstance(x.value, ast.Tuple) and len(x.value.elts) == k and order_safe(x) for x in assigns):
